@@ -135,3 +135,49 @@ Definition submit_all (reg : registry) (default_mt : bytes) (calls : list (optio
 
 Definition retained_all (calls : list (option bytes * response)) : list (nat * bytes * bytes * bytes) :=
   map (fun pc => retained_view (snd pc)) calls.
+
+(* ---- which CONTEXT the call runs under, seen through what only the context determines ----
+   A context is more than a marker: it carries values (request ids, trace spans), possibly a deadline, and it
+   can be cancelled - before the call or while it is under way. Submit derives the context of the request from
+   ONE parent: the operation context when the operation has one, else the runtime context, else the background
+   context; the request timeout (0: none) is laid on top of it, the earlier deadline applying.
+   Deadlines are ranks (0: none; a smaller rank is an earlier instant). *)
+Record ctx_cfg := mkctx {
+  x_deadline : nat;     (* 0 none *)
+  x_cancelled : bool    (* cancelled before the call *)
+}.
+
+Record ctx_seen := mkseen {
+  n_value : nat;        (* whose value reached the round tripper: 0 the operation context, 1 the runtime context, 2 neither *)
+  n_deadline : nat;     (* the deadline of the request context as the round tripper sees it (rank; 0 none) *)
+  n_ended : bool;       (* the request context was done: on arrival, or after the cancellation made during the call *)
+  n_failed : bool       (* Submit returned an error *)
+}.
+
+Definition who_code (o : origin) : nat :=
+  match o with FromOperation => 0 | FromTransport => 1 | Background => 2 end.
+
+Definition earlier_deadline (a b : nat) : nat :=
+  if Nat.eqb a 0 then b else if Nat.eqb b 0 then a else Nat.min a b.
+
+(* what is cancelled while the request is with the round tripper: 0 nothing, 1 the operation context, 2 the runtime context *)
+Definition cancels (action : nat) (o : origin) : bool :=
+  match o with
+  | FromOperation => Nat.eqb action 1
+  | FromTransport => Nat.eqb action 2
+  | Background => false
+  end.
+
+Definition run_under (o : origin) (c : ctx_cfg) (timeout action : nat) : ctx_seen :=
+  let ended := x_cancelled c || cancels action o in
+  mkseen (who_code o) (earlier_deadline (x_deadline c) timeout) ended ended.
+
+Definition submit_context (op rt : option ctx_cfg) (timeout action : nat) : ctx_seen :=
+  match op with
+  | Some c => run_under FromOperation c timeout action
+  | None =>
+    match rt with
+    | Some c => run_under FromTransport c timeout action
+    | None => mkseen (who_code Background) timeout false false
+    end
+  end.
